@@ -10,7 +10,7 @@ import argparse, json, os, shutil, subprocess, sys, time
 ap = argparse.ArgumentParser()
 ap.add_argument("prop"); ap.add_argument("name"); ap.add_argument("src"); ap.add_argument("pkg"); ap.add_argument("run")
 ap.add_argument("--checks"); ap.add_argument("--budget", type=int, default=60); ap.add_argument("--tier", default="quick")
-ap.add_argument("--demo-name", default="zz_seeded_demo_test.go"); ap.add_argument("--skip-demo", action="store_true")
+ap.add_argument("--demo-name", default="zz_seeded_demo_test.go"); ap.add_argument("--skip-demo", action="store_true"); ap.add_argument("--tags", default="")
 a = ap.parse_args()
 ENV = dict(os.environ, GOFLAGS="-mod=mod", GOPROXY="off", GOSUMDB="off")
 wt = "/tmp/seedwt-%s-%s" % (a.prop, a.name)
@@ -34,7 +34,7 @@ try:
     demo = os.path.join(wt, a.pkg, a.demo_name)
     if not a.skip_demo:
         shutil.copy(os.path.join(out, "demo_test.go"), demo)
-        rc0, o0 = sh("go test -count=1 -vet=off -run '%s' ./%s/" % (a.run, a.pkg), cwd=wt)
+        rc0, o0 = sh("go test -count=1 -vet=off %s -run '%s' ./%s/" % (("-tags " + a.tags) if a.tags else "", a.run, a.pkg), cwd=wt)
         meta["demo_without_change"] = "pass" if rc0 == 0 else "FAIL"
     rc, o = sh("git apply %s" % os.path.join(out, "patch.diff"), cwd=wt)
     if rc != 0:
@@ -44,7 +44,7 @@ try:
         rcb, ob = sh("go build ./...", cwd=wt)
         meta["builds"] = rcb == 0
         if not a.skip_demo:
-            rc1, o1 = sh("go test -count=1 -vet=off -run '%s' ./%s/" % (a.run, a.pkg), cwd=wt)
+            rc1, o1 = sh("go test -count=1 -vet=off %s -run '%s' ./%s/" % (("-tags " + a.tags) if a.tags else "", a.run, a.pkg), cwd=wt)
             meta["demo_with_change"] = "pass" if rc1 == 0 else "FAIL"
             os.remove(demo)
         # the package's own tests with the change (the demo removed)
